@@ -108,6 +108,7 @@ package scorch
 //@   ensures implies(result == nil && next.data != nil, len(s.root.segment) > 0 && s.root.segment[len(s.root.segment)-1].id == next.id && s.root.segment[len(s.root.segment)-1].segment == next.data && s.root.segment[len(s.root.segment)-1].deleted == nil)
 //@   ensures implies(result != nil, s.root == old(s.root))
 //@   loop 0: invariant s.root == old(s.root) && root == old(s.root) && newSnapshot != nil && fresh(newSnapshot) && !held(s.rootLock) && rheld(s.rootLock) == 0 && s.nextSnapshotEpoch == old(s.nextSnapshotEpoch)
+//@   loop 0: invariant root != newSnapshot && root.segment == old(s.root.segment) && root.internal == old(s.root.internal) && next.obsoletes == old(next.obsoletes) && next.data == old(next.data) && next.id == old(next.id)
 //@   loop 0: invariant len(newSnapshot.offsets) == len(newSnapshot.segment) && len(newSnapshot.segment) <= iter && (cap(newSnapshot.segment) == 0 || fresh(newSnapshot.segment)) && (cap(newSnapshot.offsets) == 0 || fresh(newSnapshot.offsets))
 //@   loop 0: invariant runningOffsets(newSnapshot.segment, newSnapshot.offsets, len(newSnapshot.segment)) && segsOKn(newSnapshot.segment, len(newSnapshot.segment))
 //@   loop 0: invariant implies(len(newSnapshot.segment) == 0, running == 0) && implies(len(newSnapshot.segment) > 0, running == newSnapshot.offsets[len(newSnapshot.segment)-1] + segDocs(newSnapshot.segment[len(newSnapshot.segment)-1].segment)) && running <= 4294967296 * iter
